@@ -246,6 +246,8 @@ def gen_case(rng, dic, vocab, cid, tier, beams=None, frames=None, lang="en-us"):
 
 def case_text(case):
     out = [f"case {case['id']}"]
+    for w, ph in case.get("addwords", []):      # close6-c02: words added at run time (decoder_add_word) before the grammar is set
+        out.append(f"addword {w} {'_'.join(ph)}")
     for k, v in sorted(case["cfg"].items()):
         out.append(f"cfg {k} {v}")
     out.append(f"fsg {case['n_state']} {case['start']} {case['final']}")
@@ -409,6 +411,157 @@ def model_dir(lang, noisedict, where):
     return d
 
 
+# ---- close6-c02: triphone back-off = Lean model `nearest`, rare boundary phones ----------------------------------------
+_MDEF_DUMP, _NEAR, BACKOFF_STATS = {}, {}, {"S_lines": 0, "distinct_(b,l,r,pos)": 0, "differing": 0, "by_model": {},
+                                            "S_lines_whose_triphone_is_absent_at_every_word_position": 0}
+_ABSENT = {}
+
+
+def mdef_dump(lang, where):
+    """dump of the acoustic model's cd_tree / ssid table (h_c16 mdefdump), read by the C16 driver into Dict2pid.BinMdef"""
+    if lang not in _MDEF_DUMP:
+        b16 = vlib.build_harness("h_c16")
+        dump = Path(where) / f"c02-mdef-{lang}.dump"
+        rc, out, err = vlib.run_bin(b16, args=["mdefdump", vlib.REPO / "model" / lang, dump])
+        if rc != 0 or not out.startswith("mdefdump ok"):
+            raise RuntimeError(f"mdefdump {lang}: {out} {err[-300:]}")
+        _MDEF_DUMP[lang] = dump
+    return _MDEF_DUMP[lang]
+
+
+def model_near(lang, keys, where):
+    """(b, l, r, pos) -> (pid, ssid) by the Lean model `nearest` / `BinMdef.pid2ssid` (ssdriver c16, op `near`)"""
+    import subprocess, time
+    cache = _NEAR.setdefault(lang, {})
+    todo = sorted(set(keys) - set(cache))
+    if todo:
+        env = dict(os.environ)
+        env["C16_MDEF"] = str(mdef_dump(lang, where))
+        text = "".join(f"near {b} {l} {r} {p}\n" for b, l, r, p in todo)
+        for attempt in range(30):
+            try:
+                r = subprocess.run([str(vlib.driver_path()), "c16"], input=text.encode(), stdout=subprocess.PIPE,
+                                   stderr=subprocess.PIPE, timeout=900, env=env)
+                break
+            except (FileNotFoundError, PermissionError, OSError):
+                time.sleep(2)
+        lines = [l.split() for l in r.stdout.decode().split("\n") if l.startswith("n ")]
+        if r.returncode != 0 or len(lines) != len(todo):
+            raise RuntimeError(f"ssdriver c16 near: rc {r.returncode}, {len(lines)} answers for {len(todo)} ops: {r.stderr.decode()[-300:]}")
+        for k, w in zip(todo, lines):
+            cache[k] = (int(w[1]), int(w[2]))
+    return cache
+
+
+def model_backoff(out, lang, where):
+    """harness dump with the ssid of every S line replaced by the model's; case id -> differing lines"""
+    keys = set()
+    for l in out.split("\n"):
+        if l.startswith("S "):
+            keys.add(tuple(int(x) for x in l.split()[1:5]))
+    near = model_near(lang, keys, where) if keys else {}
+    ab = _ABSENT.get(lang)
+    res, bad, cur = [], {}, None
+    for l in out.split("\n"):
+        if l.startswith("case "):
+            cur = l.split()[1]
+        if l.startswith("S "):
+            w = l.split()
+            k = tuple(int(x) for x in w[1:5])
+            BACKOFF_STATS["S_lines"] += 1
+            BACKOFF_STATS["by_model"][lang] = BACKOFF_STATS["by_model"].get(lang, 0) + 1
+            if ab and k[2] in ab["absent"].get((k[0], k[1]), ()):
+                BACKOFF_STATS["S_lines_whose_triphone_is_absent_at_every_word_position"] += 1
+            pid, ssid = near[k]
+            if int(w[5]) != ssid:
+                BACKOFF_STATS["differing"] += 1
+                bad.setdefault(cur, []).append({"base": k[0], "left": k[1], "right": k[2], "word_position(0 int,1 begin,2 end,3 single)": k[3],
+                                                "bin_mdef_phone_id_nearest->ssid": int(w[5]), "model_phone_id": pid, "model_ssid": ssid})
+            l = " ".join(w[:5] + [str(ssid)])
+        res.append(l)
+    BACKOFF_STATS["distinct_(b,l,r,pos)"] = sum(len(v) for v in _NEAR.values())
+    return "\n".join(res), bad
+
+
+def absent_triphones(binp, lang, dictfile):
+    """from exact bin_mdef_phone_id look-ups: (b, l) -> set of r such that the model has b(l, r) at no word position"""
+    if lang not in _ABSENT:
+        rc, out, err = vlib.run_bin(binp, [str(vlib.REPO / "model" / lang), str(dictfile)], stdin_text="absent\n", timeout=600)
+        ab, names, fil, sil = {}, [], [], -1
+        for l in out.split("\n"):
+            w = l.split()
+            if w and w[0] == "AB":
+                ab[(int(w[1]), int(w[2]))] = {int(x) for x in w[3:]}
+            elif w and w[0] == "PHONES":
+                sil = int(w[1])
+                names = [x.rsplit(":", 1)[0] for x in w[2:]]
+                fil = [x.rsplit(":", 1)[1] == "1" for x in w[2:]]
+        if "absent done" not in out or not names:
+            raise RuntimeError(f"h_c02 absent ({lang}): rc {rc} {err[-300:]}")
+        _ABSENT[lang] = {"absent": ab, "names": names, "filler": fil, "sil": sil}
+    return _ABSENT[lang]
+
+
+def gen_rare_case(rng, dic, vocab, cid, tier, lang, ab, stats):
+    """two ADJACENT words whose cross-word triphone the model definition lacks: one (or both) of them added at run time
+    (decoder_add_word) with a boundary phone drawn from the phone pairs whose triphone is absent at every word position
+    (enumerated from exact look-ups), so that the senone sequence at the boundary is decided by the back-off rule"""
+    names, fil, sil, absent = ab["names"], ab["filler"], ab["sil"], ab["absent"]
+    idx = {n: i for i, n in enumerate(names)}
+    nonfil = [i for i in range(len(names)) if not fil[i] and i != sil]
+    base = gen_case(rng, dic, vocab, cid, tier, beams=("wide" if rng.chance(0.85) else None), frames=rng.range(25, 100), lang=lang)
+    two = [w for w in vocab if len(dic[w][0][1]) >= 2 and all(p in idx for p in dic[w][0][1])]
+    side = rng.weighted([("new-word-on-the-right", 4), ("new-word-on-the-left", 4), ("both-new", 2)])
+    add, hit = [], False
+
+    def fresh(ph):
+        nm = f"zq{cid}n{len(add)}".replace("-", "").lower()
+        add.append([nm, [names[p] for p in ph]])
+        return nm
+    if side == "new-word-on-the-right":
+        w1 = rng.choice(two)
+        a, x = idx[dic[w1][0][1][-1]], idx[dic[w1][0][1][-2]]
+        cand = sorted(c for c in absent.get((a, x), ()) if c in nonfil)
+        hit = bool(cand) and rng.chance(0.85)
+        c = rng.choice(cand) if hit else rng.choice(nonfil)
+        w2 = fresh([c] + [rng.choice(nonfil) for _ in range(rng.range(1, 3))])
+    elif side == "new-word-on-the-left":
+        w2 = rng.choice(two)
+        c, y = idx[dic[w2][0][1][0]], idx[dic[w2][0][1][1]]
+        cand = sorted(a for a in nonfil if y in absent.get((c, a), ()))
+        hit = bool(cand) and rng.chance(0.85)
+        a = rng.choice(cand) if hit else rng.choice(nonfil)
+        w1 = fresh([rng.choice(nonfil) for _ in range(rng.range(1, 3))] + [a])
+    else:
+        p1 = [rng.choice(nonfil) for _ in range(rng.range(1, 4))]
+        p2 = [rng.choice(nonfil) for _ in range(rng.range(1, 4))]
+        w1, w2 = fresh(p1), fresh(p2)
+        hit = len(p1) >= 2 and p2[0] in absent.get((p1[-1], p1[-2]), ())
+    ws = ([rng.choice(vocab)] if rng.chance(0.3) else []) + [w1, w2] + ([rng.choice(vocab)] if rng.chance(0.3) else [])
+    tr = [[i, i + 1, rng.choice(PROBS), w] for i, w in enumerate(ws)]
+    if rng.chance(0.3):      # an alternative to the second word of the pair: the left word then has two right contexts
+        k = ws.index(w2)
+        tr.append([k, k + 1, rng.choice(PROBS), rng.choice(vocab)])
+    base.update({"shape": "rare-boundary", "n_state": len(ws) + 1, "start": 0, "final": len(ws), "trans": tr, "addwords": add})
+    need = 3 * sum(len(dict(add).get(w) or dic[w][0][1]) for w in ws) + 2
+    a_ = base["audio"]
+    n_idx = 3 if a_[0] == "file" else 2
+    if a_[n_idx] < need * 160 + 250:
+        a_[n_idx] = need * 160 + 250
+        if a_[0] == "file":
+            total = (vlib.REPO / LANGS[lang]["audio"]).stat().st_size // 2
+            a_[2] = min(a_[2], max(0, total - a_[n_idx]))
+    fam = stats.setdefault("rare_boundary_family", {"cases": 0, "by_model": {}, "placement": {}, "boundary_triphone_absent_at_every_position": 0,
+                                                    "words_added_at_run_time": 0, "beams": {}})
+    fam["cases"] += 1
+    fam["by_model"][lang] = fam["by_model"].get(lang, 0) + 1
+    fam["placement"][side] = fam["placement"].get(side, 0) + 1
+    fam["boundary_triphone_absent_at_every_position"] += 1 if hit else 0
+    fam["words_added_at_run_time"] += len(add)
+    fam["beams"][base["beams"]] = fam["beams"].get(base["beams"], 0) + 1
+    return base
+
+
 def run_cases(binp, dictfile, cases, timeout=1200):
     text = "".join(case_text(c) for c in cases)
     binp = vlib.build_harness("h_c02")     # other runs may have pruned the build cache in the meantime
@@ -418,8 +571,14 @@ def run_cases(binp, dictfile, cases, timeout=1200):
     df = dictfile[lang] if isinstance(dictfile, dict) else dictfile
     mdir = model_dir(lang, cases[0].get("noisedict"), Path(df).parent)
     rc, out, err = vlib.run_bin(binp, [str(mdir), str(df)], stdin_text=text, timeout=timeout)
-    rc2, mout, merr = run_driver_retry(out, timeout)
+    # close6-c02: the triphone of every (base, left, right, position) of the flat network is recomputed by the Lean model
+    # `nearest` (exact tree-walk look-ups + back-off rule, Model/Dict2pid.lean) on the dumped cd_tree; the optimum oracle
+    # (driver c02) gets the MODEL's senone sequences, the harness's bin_mdef_phone_id_nearest values are only compared
+    out_model, backoff_bad = model_backoff(out, lang, Path(df).parent)
+    rc2, mout, merr = run_driver_retry(out_model, timeout)
     ms = parse_driver(mout)
+    for cid, lst in backoff_bad.items():
+        ms.setdefault(cid, {"error": "no driver output"})["backoff_bad"] = lst
     # the scoring model of the unpruned token-passing search, run on the same dump (real lextree, recorded senone scores)
     sin = out if filler_all_rc() else re.sub(r"(?m)^(case \S+)$", r"\1\nOPT fillerallrc 0", out)
     rc3, sout, serr = run_driver_retry(sin, timeout, sub="c02s")
